@@ -142,7 +142,7 @@ const LOOP_EXITS: &[&str] = &[
 const EXPR_EXITS: &[&str] = &["exhaust", "fault", "mutate", "cancel", "depth", "natural"];
 
 fn muts(kind: &str) -> &'static [&'static str] {
-    match kind {
+    match kind.trim_end_matches("_empty") {
         "list" => LIST_MUTS,
         "dict" => DICT_MUTS,
         _ => SET_MUTS,
@@ -215,6 +215,34 @@ fn catalogue() -> &'static Vec<Spec> {
                 }
             }
         }
+        // Containers that are empty when the iteration starts (a list emptied by clear(), an empty
+        // dict, an empty set): the body never runs, the only way of leaving is exhaustion - and the
+        // container must be mutable afterwards like any other.
+        for kind in ["list_empty", "dict_empty", "set_empty"] {
+            let nm = muts(kind).len();
+            for m in 0..nm {
+                for (construct, _) in LOOP_CONSTRUCTS {
+                    for alias in ALIASES {
+                        v.push(Spec { kind, construct, mutation: m, alias, exit: "exhaust", at: 0 });
+                    }
+                }
+                for construct in EXPR_CONSTRUCTS {
+                    // max / min of an empty container is an error by definition.
+                    if *construct == "max_key" || *construct == "min_key" {
+                        continue;
+                    }
+                    v.push(Spec { kind, construct, mutation: m, alias: ALIASES[m % 4], exit: "exhaust", at: 0 });
+                }
+                for (i, c) in EAGER_CONSUMERS.iter().enumerate() {
+                    if *c == "R = max(C)" || *c == "a, b, c = C" {
+                        continue;
+                    }
+                    if (i + m) % 3 == 0 {
+                        v.push(Spec { kind, construct: "eager", mutation: m, alias: ALIASES[(i + m) % 4], exit: "consumed", at: i });
+                    }
+                }
+            }
+        }
         for (i, (kind, _)) in AUG_MUTS.iter().enumerate() {
             for (construct, _) in LOOP_CONSTRUCTS {
                 for exit in ["exhaust", "mutate", "fault", "break"] {
@@ -235,6 +263,9 @@ fn catalogue() -> &'static Vec<Spec> {
 
 fn init(kind: &str) -> &'static str {
     match kind {
+        "list_empty" => "[7, 8]\nC.clear()",
+        "dict_empty" => "{}",
+        "set_empty" => "set()",
         "list" => "[1, 2, 3]",
         "dict" => "{\"a\": 1, \"b\": 2, \"c\": 3}",
         _ => "set([1, 2, 3])",
@@ -242,7 +273,7 @@ fn init(kind: &str) -> &'static str {
 }
 
 fn elem(kind: &str, at: usize) -> &'static str {
-    match kind {
+    match kind.trim_end_matches("_empty") {
         "dict" => ["\"a\"", "\"b\"", "\"c\""][at % 3],
         _ => ["1", "2", "3"][at % 3],
     }
@@ -250,7 +281,7 @@ fn elem(kind: &str, at: usize) -> &'static str {
 
 /// A second container that makes eager consumers fail part-way.
 fn init2(kind: &str) -> &'static str {
-    match kind {
+    match kind.trim_end_matches("_empty") {
         "list" => "[(1, 2), \"ab\", 3, None]",
         "dict" => "{(1, 2): 1, \"ab\": 2, 3: 3}",
         _ => "set([(1, 2), \"ab\", 3])",
